@@ -943,7 +943,7 @@ func (k *core) checkExitOnFreshScan(rule string) {
 	if !c.need(fWatching != nil, "dials.sourceValue.watching") {
 		return
 	}
-	readsWatching := func(f *ssa.Function) bool {
+	readsDirect := func(f *ssa.Function) bool {
 		for _, i := range allInstrs(f) {
 			if fl, ok := i.(*ssa.Field); ok && sameField(fieldVar(fl.X.Type(), fl.Field), fWatching) {
 				return true
@@ -958,6 +958,26 @@ func (k *core) checkExitOnFreshScan(rule string) {
 		}
 		return false
 	}
+	// the functions that do the scanning on behalf of f: f itself, or root-package helpers it calls (two levels)
+	var scanFns func(f *ssa.Function, depth int) []*ssa.Function
+	scanFns = func(f *ssa.Function, depth int) []*ssa.Function {
+		var out []*ssa.Function
+		if readsDirect(f) {
+			out = append(out, f)
+		}
+		if depth == 0 {
+			return out
+		}
+		for _, i := range allInstrs(f) {
+			if ci, ok := i.(*ssa.Call); ok {
+				if callee := staticCallee(ci); callee != nil && callee != f && k.w.pkgRelOfFn(callee) == "" && len(callee.Blocks) > 0 {
+					out = append(out, scanFns(callee, depth-1)...)
+				}
+			}
+		}
+		return out
+	}
+	readsWatching := func(f *ssa.Function) bool { return len(scanFns(f, 2)) > 0 }
 	// loop header of the monitor
 	var hdr *ssa.BasicBlock
 	for _, b := range m.Blocks {
@@ -1026,49 +1046,71 @@ func (k *core) checkExitOnFreshScan(rule string) {
 					if !ok {
 						continue
 					}
-					callee := staticCallee(call)
-					if callee == nil || !readsWatching(callee) {
+					callee0 := staticCallee(call)
+					if callee0 == nil || !readsWatching(callee0) {
 						continue
 					}
-					for _, h := range loopHeaders(callee) {
-						reads := false
-						for _, b := range callee.Blocks {
-							if b != h && !inLoopBody(h, b) {
-								continue
-							}
-							for _, bi := range b.Instrs {
-								if fl, ok := bi.(*ssa.Field); ok && sameField(fieldVar(fl.X.Type(), fl.Field), fWatching) {
-									reads = true
+					for _, callee := range scanFns(callee0, 2) {
+						scanLoops := 0
+						for _, h := range loopHeaders(callee) {
+							for _, b := range callee.Blocks {
+								if b != h && !inLoopBody(h, b) {
+									continue
 								}
-								if fa, ok := bi.(*ssa.FieldAddr); ok && sameField(fieldVar(fa.X.Type(), fa.Field), fWatching) {
-									for _, rr := range *fa.Referrers() {
-										if u, ok := rr.(*ssa.UnOp); ok && u.Op == token.MUL {
-											reads = true
+								for _, bi := range b.Instrs {
+									if fl, ok := bi.(*ssa.Field); ok && sameField(fieldVar(fl.X.Type(), fl.Field), fWatching) {
+										scanLoops++
+									}
+									if fa, ok := bi.(*ssa.FieldAddr); ok && sameField(fieldVar(fa.X.Type(), fa.Field), fWatching) {
+										scanLoops++
+									}
+								}
+							}
+						}
+						if scanLoops == 0 {
+							// the watching bits are read, but not in a loop over the slots: at most one slot is looked at
+							fresh = false
+						}
+						for _, h := range loopHeaders(callee) {
+							reads := false
+							for _, b := range callee.Blocks {
+								if b != h && !inLoopBody(h, b) {
+									continue
+								}
+								for _, bi := range b.Instrs {
+									if fl, ok := bi.(*ssa.Field); ok && sameField(fieldVar(fl.X.Type(), fl.Field), fWatching) {
+										reads = true
+									}
+									if fa, ok := bi.(*ssa.FieldAddr); ok && sameField(fieldVar(fa.X.Type(), fa.Field), fWatching) {
+										for _, rr := range *fa.Referrers() {
+											if u, ok := rr.(*ssa.UnOp); ok && u.Op == token.MUL {
+												reads = true
+											}
 										}
 									}
 								}
 							}
-						}
-						if !reads {
-							continue
-						}
-						for _, b := range callee.Blocks {
-							if b == h || !inLoopBody(h, b) {
+							if !reads {
 								continue
 							}
-							for _, sc := range b.Succs {
-								if sc == h || inLoopBody(h, sc) {
+							for _, b := range callee.Blocks {
+								if b == h || !inLoopBody(h, b) {
 									continue
 								}
-								// leaving the loop from its body: only `return true`
-								okExit := false
-								if ret, ok := sc.Instrs[len(sc.Instrs)-1].(*ssa.Return); ok && len(sc.Succs) == 0 && len(ret.Results) == 1 {
-									if cst, ok := ret.Results[0].(*ssa.Const); ok && cst.Value != nil && cst.Value.ExactString() == "true" {
-										okExit = true
+								for _, sc := range b.Succs {
+									if sc == h || inLoopBody(h, sc) {
+										continue
 									}
-								}
-								if !okExit {
-									fresh = false
+									// leaving the loop from its body: only `return true`
+									okExit := false
+									if ret, ok := sc.Instrs[len(sc.Instrs)-1].(*ssa.Return); ok && len(sc.Succs) == 0 && len(ret.Results) == 1 {
+										if cst, ok := ret.Results[0].(*ssa.Const); ok && cst.Value != nil && cst.Value.ExactString() == "true" {
+											okExit = true
+										}
+									}
+									if !okExit {
+										fresh = false
+									}
 								}
 							}
 						}
